@@ -375,6 +375,15 @@ func (c *UConn) handshakeContext(ctx context.Context) (ret error) {
 	if c.isClient {
 		err := c.BuildHandshakeState()
 		if err != nil {
+			if c.quic != nil {
+				// UQUICConn.Start, HandleData and Close wait on these
+				// channels; without closing them they block forever.
+				// Start may be called only once, so the error is final.
+				c.handshakeErr = quicError(err)
+				close(c.quic.blockedc)
+				close(c.quic.signalc)
+				return c.handshakeErr
+			}
 			return err
 		}
 	}
